@@ -31,27 +31,26 @@ Classes   == {"sp", "vt", "nl"} \cup Letters \cup Digits \cup {".", "q", "Q", "b
 \* multi-character punctuators: (prefix, class) -> longer punctuator
 PunctExt == [pr \in {<<"+", "+">>, <<"+", "=">>, <<"*", "*">>, <<"*", "=">>, <<"=", "=">>, <<"==", "=">>, <<"=", ">">>,
                      <<"!", "=">>, <<"!=", "=">>, <<"<", "<">>, <<"<", "=">>, <<"<<", "=">>, <<">", ">">>, <<">>", ">">>,
-                     <<">", "=">>, <<">>", "=">>, <<">>>", "=">>, <<"&", "&">>, <<"&", "=">>, <<"%", "=">>} |->
+                     <<">", "=">>, <<">>", "=">>, <<">>>", "=">>, <<"&", "&">>, <<"&", "=">>, <<"%", "=">>, <<"**", "=">>} |->
    CASE pr = <<"+", "+">> -> "++"   [] pr = <<"+", "=">> -> "+="   [] pr = <<"*", "*">> -> "**"  [] pr = <<"*", "=">> -> "*="
      [] pr = <<"=", "=">> -> "=="   [] pr = <<"==", "=">> -> "===" [] pr = <<"=", ">">> -> "=>"
      [] pr = <<"!", "=">> -> "!="   [] pr = <<"!=", "=">> -> "!=="
      [] pr = <<"<", "<">> -> "<<"   [] pr = <<"<", "=">> -> "<="   [] pr = <<"<<", "=">> -> "<<="
      [] pr = <<">", ">">> -> ">>"   [] pr = <<">>", ">">> -> ">>>" [] pr = <<">", "=">> -> ">="
      [] pr = <<">>", "=">> -> ">>=" [] pr = <<">>>", "=">> -> ">>>="
-     [] pr = <<"&", "&">> -> "&&"   [] pr = <<"&", "=">> -> "&="   [] pr = <<"%", "=">> -> "%="]
+     [] pr = <<"&", "&">> -> "&&"   [] pr = <<"&", "=">> -> "&="   [] pr = <<"%", "=">> -> "%="  [] pr = <<"**", "=">> -> "**="]
 
 \* named deviations (as-is rules of lexer.py)
 LexDevs == {"Dev_UnterminatedComment",     \* _skip_whitespace: end of input inside /* ... is not an error
             "Dev_UnterminatedRegex",       \* read_regex_literal: end of input inside /... is not an error
             "Dev_RegexBackslashNewline",   \* read_regex_literal: backslash + line terminator accepted
-            "Dev_TrailingDot",             \* _read_number: '.' belongs to the number only if a digit follows
             "Dev_NumIdentAdjacent",        \* _read_number: an identifier start / digit directly after a number starts a new token
             "Dev_LeadingZero",             \* _read_number: 0 followed by digits is read as a decimal number
             "Dev_OctalEscape",             \* _read_string: \1..\9 and \0<digit> are identity escapes
             "Dev_WhitespaceVTFF"}          \* _skip_whitespace: VT and FF are not white space
 OperandEnd == {"id", "num", "str", "regex", ")", "]", "}"}     \* after these a '/' is a division
 
-NoErr == [k |-> "none", s0 |-> 0, s1 |-> 0, exact |-> FALSE, lenient |-> FALSE]
+NoErr == [k |-> "none", s0 |-> 0, s1 |-> 0, exact |-> FALSE, lenient |-> ""]
 St0(userx) == [m |-> "d", pos |-> 0, line |-> 1, col |-> 1, idle |-> 0, mxi |-> 0,
                ts |-> 0, tl |-> 1, tc |-> 1, acc |-> "", cnt |-> 0, q |-> "", cls |-> FALSE,
                rx |-> TRUE, userx |-> userx, out |-> <<>>, err |-> NoErr, fired |-> {}]
@@ -68,7 +67,8 @@ Emit(st, kind) == [st EXCEPT !.m = "d", !.idle = @ + 1, !.rx = kind \notin Opera
 \* emit without the epsilon accounting (token closed by the character that was just consumed, or at the end)
 EmitC(st, kind) == [st EXCEPT !.m = "d", !.rx = kind \notin OperandEnd,
                               !.out = Append(@, [k |-> kind, line |-> st.tl, col |-> st.tc])]
-\* lexical error: offending token starts at st.ts; detected at the current offset
+\* lexical error: offending token starts at st.ts; detected at the current offset.  len = "" or the name of an
+\* opaque deviation: the engine is known to accept some of these texts with another meaning (see LexDevs)
 ErrAt(st, c, kind, isexact, len) ==
   [Adv(st, c) EXCEPT !.m = "dead",
                      !.err = [k |-> kind, s0 |-> IF isexact THEN st.pos ELSE st.ts, s1 |-> st.pos, exact |-> isexact, lenient |-> len]]
@@ -78,7 +78,7 @@ Fire(st, dev) == [st EXCEPT !.fired = @ \cup {dev}]
 NumEnd(st, c, dv) ==
   IF c \in IdPart
   THEN IF "Dev_NumIdentAdjacent" \in dv THEN Fire(Emit(st, "num"), "Dev_NumIdentAdjacent")
-       ELSE ErrAt(st, c, "num-ident", FALSE, FALSE)
+       ELSE ErrAt(st, c, "num-ident", FALSE, "")
   ELSE Emit(st, "num")
 
 Step(st, c, dv) ==
@@ -86,7 +86,7 @@ Step(st, c, dv) ==
   CASE md = "dead" -> Adv(st, c)
     [] md = "d" ->
          IF c \in {"sp", "nl"} THEN Adv(st, c)
-         ELSE IF c = "vt" THEN (IF "Dev_WhitespaceVTFF" \in dv THEN Fire(ErrAt(st, c, "illegal", TRUE, FALSE), "Dev_WhitespaceVTFF") ELSE Adv(st, c))
+         ELSE IF c = "vt" THEN (IF "Dev_WhitespaceVTFF" \in dv THEN Fire(ErrAt(st, c, "illegal", TRUE, ""), "Dev_WhitespaceVTFF") ELSE Adv(st, c))
          ELSE IF c \in Letters THEN Begin(st, c, "id")
          ELSE IF c = "0" THEN Begin(st, c, "z")
          ELSE IF c \in Digits THEN Begin(st, c, "int")
@@ -94,37 +94,42 @@ Step(st, c, dv) ==
          ELSE IF c \in {"q", "Q"} THEN [Begin(st, c, "str") EXCEPT !.q = c]
          ELSE IF c = "/" THEN Begin(st, c, "sl")
          ELSE IF c \in PunctStart THEN Begin(st, c, "p")
-         ELSE ErrAt(st, c, "illegal", TRUE, FALSE)
+         ELSE ErrAt(st, c, "illegal", TRUE, "")
     [] md = "id" -> IF c \in IdPart THEN Adv(st, c) ELSE Emit(st, "id")
     [] md = "p" -> IF <<st.acc, c>> \in DOMAIN PunctExt THEN [Adv(st, c) EXCEPT !.acc = PunctExt[<<st.acc, c>>]] ELSE Emit(st, st.acc)
     \* ---- numbers
     [] md = "z" ->
          IF c = "x" THEN AdvTo(st, c, "hex0") ELSE IF c = "b" THEN AdvTo(st, c, "bin0") ELSE IF c = "o" THEN AdvTo(st, c, "oct0")
-         ELSE IF c = "." THEN (IF "Dev_TrailingDot" \in dv THEN AdvTo(st, c, "intdot") ELSE AdvTo(st, c, "frac"))
+         ELSE IF c = "." THEN AdvTo(st, c, "idot")
          ELSE IF c = "e" THEN AdvTo(st, c, "exp0")
          ELSE IF c \in Digits THEN (IF "Dev_LeadingZero" \in dv THEN Fire(AdvTo(st, c, "int"), "Dev_LeadingZero")
-                                    ELSE ErrAt(st, c, "leading-zero", FALSE, FALSE))
+                                    ELSE ErrAt(st, c, "leading-zero", FALSE, ""))
          ELSE NumEnd(st, c, dv)
     [] md = "int" ->
          IF c \in Digits THEN Adv(st, c)
-         ELSE IF c = "." THEN (IF "Dev_TrailingDot" \in dv THEN AdvTo(st, c, "intdot") ELSE AdvTo(st, c, "frac"))
+         ELSE IF c = "." THEN AdvTo(st, c, "idot")
          ELSE IF c = "e" THEN AdvTo(st, c, "exp0")
          ELSE NumEnd(st, c, dv)
-    [] md = "intdot" ->             \* as-is only: the '.' was consumed provisionally
+    \* decimal integer followed by '.', no fraction digit yet: "1." is a number; "1.name" and "1.e<no digit>" are
+    \* errors of the lexical grammar that the engine reads as a property access on the integer (opaque deviation)
+    [] md = "idot" ->
          IF c \in Digits THEN AdvTo(st, c, "frac")
-         ELSE LET s1 == Fire(EmitC(st, "num"), "Dev_TrailingDot")
-                  s2 == [s1 EXCEPT !.ts = st.pos - 1, !.tl = st.line, !.tc = st.col - 1, !.acc = "."]
-              IN Emit(s2, ".")
+         ELSE IF c = "e" THEN AdvTo(st, c, "idote")
+         ELSE IF c \in Letters THEN ErrAt(st, c, "num-ident", FALSE, "Dev_NumberDotName")
+         ELSE Emit(st, "num")
+    [] md = "idote" -> IF c = "+" THEN AdvTo(st, c, "idotes") ELSE IF c \in Digits THEN AdvTo(st, c, "exp")
+                       ELSE ErrAt(st, c, "bad-number", FALSE, "Dev_NumberDotName")
+    [] md = "idotes" -> IF c \in Digits THEN AdvTo(st, c, "exp") ELSE ErrAt(st, c, "bad-number", FALSE, "Dev_NumberDotName")
     [] md = "dot" -> IF c \in Digits THEN AdvTo(st, c, "frac") ELSE Emit(st, ".")
     [] md = "frac" -> IF c \in Digits THEN Adv(st, c) ELSE IF c = "e" THEN AdvTo(st, c, "exp0") ELSE NumEnd(st, c, dv)
-    [] md = "exp0" -> IF c = "+" THEN AdvTo(st, c, "exp1") ELSE IF c \in Digits THEN AdvTo(st, c, "exp") ELSE ErrAt(st, c, "bad-number", FALSE, FALSE)
-    [] md = "exp1" -> IF c \in Digits THEN AdvTo(st, c, "exp") ELSE ErrAt(st, c, "bad-number", FALSE, FALSE)
+    [] md = "exp0" -> IF c = "+" THEN AdvTo(st, c, "exp1") ELSE IF c \in Digits THEN AdvTo(st, c, "exp") ELSE ErrAt(st, c, "bad-number", FALSE, "")
+    [] md = "exp1" -> IF c \in Digits THEN AdvTo(st, c, "exp") ELSE ErrAt(st, c, "bad-number", FALSE, "")
     [] md = "exp" -> IF c \in Digits THEN Adv(st, c) ELSE NumEnd(st, c, dv)
-    [] md = "hex0" -> IF c \in HexDigits THEN AdvTo(st, c, "hex") ELSE ErrAt(st, c, "bad-number", FALSE, FALSE)
+    [] md = "hex0" -> IF c \in HexDigits THEN AdvTo(st, c, "hex") ELSE ErrAt(st, c, "bad-number", FALSE, "")
     [] md = "hex" -> IF c \in HexDigits THEN Adv(st, c) ELSE NumEnd(st, c, dv)
-    [] md = "bin0" -> IF c \in {"0", "1"} THEN AdvTo(st, c, "bin") ELSE ErrAt(st, c, "bad-number", FALSE, FALSE)
+    [] md = "bin0" -> IF c \in {"0", "1"} THEN AdvTo(st, c, "bin") ELSE ErrAt(st, c, "bad-number", FALSE, "")
     [] md = "bin" -> IF c \in {"0", "1"} THEN Adv(st, c) ELSE NumEnd(st, c, dv)
-    [] md = "oct0" -> IF c \in {"0", "1", "7"} THEN AdvTo(st, c, "oct") ELSE ErrAt(st, c, "bad-number", FALSE, FALSE)
+    [] md = "oct0" -> IF c \in {"0", "1", "7"} THEN AdvTo(st, c, "oct") ELSE ErrAt(st, c, "bad-number", FALSE, "")
     [] md = "oct" -> IF c \in {"0", "1", "7"} THEN Adv(st, c) ELSE NumEnd(st, c, dv)
     \* ---- slash: comment, regular expression, division
     [] md = "sl" ->
@@ -140,37 +145,37 @@ Step(st, c, dv) ==
     [] md = "str" ->
          IF c = st.q THEN EmitC(Adv(st, c), "str")
          ELSE IF c = "bs" THEN AdvTo(st, c, "esc")
-         ELSE IF c = "nl" THEN ErrAt(st, c, "unterminated-string", FALSE, FALSE)
+         ELSE IF c = "nl" THEN ErrAt(st, c, "unterminated-string", FALSE, "")
          ELSE Adv(st, c)
     [] md = "esc" ->
          IF c = "x" THEN AdvTo(st, c, "hx2")
          ELSE IF c = "u" THEN AdvTo(st, c, "u0")
          ELSE IF c = "0" THEN AdvTo(st, c, "esc0")
          ELSE IF c \in Digits THEN (IF "Dev_OctalEscape" \in dv THEN Fire(AdvTo(st, c, "str"), "Dev_OctalEscape")
-                                    ELSE ErrAt(st, c, "octal-escape", FALSE, FALSE))
+                                    ELSE ErrAt(st, c, "octal-escape", FALSE, ""))
          ELSE AdvTo(st, c, "str")                                  \* single-character, identity escape, line continuation
-    [] md = "esc0" -> IF c \in Digits /\ "Dev_OctalEscape" \notin dv THEN ErrAt(st, c, "octal-escape", FALSE, FALSE)
+    [] md = "esc0" -> IF c \in Digits /\ "Dev_OctalEscape" \notin dv THEN ErrAt(st, c, "octal-escape", FALSE, "")
                       ELSE IF c \in Digits THEN Fire([st EXCEPT !.m = "str", !.idle = @ + 1], "Dev_OctalEscape")
                       ELSE [st EXCEPT !.m = "str", !.idle = @ + 1]
-    [] md = "hx2" -> IF c \in HexDigits THEN AdvTo(st, c, "hx1") ELSE ErrAt(st, c, "bad-escape", FALSE, c \in {"sp", "nl", "+"})
-    [] md = "hx1" -> IF c \in HexDigits THEN AdvTo(st, c, "str") ELSE ErrAt(st, c, "bad-escape", FALSE, c \in {"sp", "nl"})
+    [] md = "hx2" -> IF c \in HexDigits THEN AdvTo(st, c, "hx1") ELSE ErrAt(st, c, "bad-escape", FALSE, IF c \in {"sp", "nl", "+"} THEN "Dev_LenientEscapeDigits" ELSE "")
+    [] md = "hx1" -> IF c \in HexDigits THEN AdvTo(st, c, "str") ELSE ErrAt(st, c, "bad-escape", FALSE, IF c \in {"sp", "nl"} THEN "Dev_LenientEscapeDigits" ELSE "")
     [] md = "u0" -> IF c = "{" THEN AdvTo(st, c, "ub0") ELSE IF c \in HexDigits THEN [AdvTo(st, c, "un") EXCEPT !.cnt = 3]
-                    ELSE ErrAt(st, c, "bad-escape", FALSE, c \in {"sp", "nl", "+"})
+                    ELSE ErrAt(st, c, "bad-escape", FALSE, IF c \in {"sp", "nl", "+"} THEN "Dev_LenientEscapeDigits" ELSE "")
     [] md = "un" -> IF c \in HexDigits THEN (IF st.cnt = 1 THEN AdvTo(st, c, "str") ELSE [Adv(st, c) EXCEPT !.cnt = @ - 1])
-                    ELSE ErrAt(st, c, "bad-escape", FALSE, c \in {"sp", "nl"})
-    [] md = "ub0" -> IF c \in HexDigits THEN [AdvTo(st, c, "ub") EXCEPT !.cnt = 1] ELSE ErrAt(st, c, "bad-escape", FALSE, c \in {"sp", "nl", "+"})
+                    ELSE ErrAt(st, c, "bad-escape", FALSE, IF c \in {"sp", "nl"} THEN "Dev_LenientEscapeDigits" ELSE "")
+    [] md = "ub0" -> IF c \in HexDigits THEN [AdvTo(st, c, "ub") EXCEPT !.cnt = 1] ELSE ErrAt(st, c, "bad-escape", FALSE, IF c \in {"sp", "nl", "+"} THEN "Dev_LenientEscapeDigits" ELSE "")
     [] md = "ub" -> IF c = "}" THEN AdvTo(st, c, "str")
-                    ELSE IF c \in HexDigits THEN (IF st.cnt >= 5 THEN ErrAt(st, c, "bad-escape", FALSE, TRUE) ELSE [Adv(st, c) EXCEPT !.cnt = @ + 1])
-                    ELSE ErrAt(st, c, "bad-escape", FALSE, c \in {"sp", "nl"})
+                    ELSE IF c \in HexDigits THEN (IF st.cnt >= 5 THEN ErrAt(st, c, "bad-escape", FALSE, "Dev_LenientEscapeDigits") ELSE [Adv(st, c) EXCEPT !.cnt = @ + 1])
+                    ELSE ErrAt(st, c, "bad-escape", FALSE, IF c \in {"sp", "nl"} THEN "Dev_LenientEscapeDigits" ELSE "")
     \* ---- regular expression literal
     [] md = "rx" ->
-         IF c = "nl" THEN ErrAt(st, c, "unterminated-regex", FALSE, FALSE)
+         IF c = "nl" THEN ErrAt(st, c, "unterminated-regex", FALSE, "")
          ELSE IF c = "bs" THEN AdvTo(st, c, "rxe")
          ELSE IF c = "[" THEN [Adv(st, c) EXCEPT !.cls = TRUE]
          ELSE IF c = "]" THEN [Adv(st, c) EXCEPT !.cls = FALSE]
          ELSE IF c = "/" /\ ~st.cls THEN AdvTo(st, c, "rxf")
          ELSE Adv(st, c)
-    [] md = "rxe" -> IF c = "nl" /\ "Dev_RegexBackslashNewline" \notin dv THEN ErrAt(st, c, "unterminated-regex", FALSE, FALSE)
+    [] md = "rxe" -> IF c = "nl" /\ "Dev_RegexBackslashNewline" \notin dv THEN ErrAt(st, c, "unterminated-regex", FALSE, "")
                      ELSE IF c = "nl" THEN Fire(AdvTo(st, c, "rx"), "Dev_RegexBackslashNewline")
                      ELSE AdvTo(st, c, "rx")
     [] md = "rxf" -> IF c \in IdPart THEN Adv(st, c) ELSE Emit(st, "regex")
@@ -178,15 +183,13 @@ Step(st, c, dv) ==
 \* end of input
 Finish(st, dv) ==
   LET md == st.m
-      errEnd(kind) == [st EXCEPT !.m = "dead", !.err = [k |-> kind, s0 |-> st.ts, s1 |-> st.pos, exact |-> FALSE, lenient |-> FALSE]]
+      errEnd(kind) == [st EXCEPT !.m = "dead", !.err = [k |-> kind, s0 |-> st.ts, s1 |-> st.pos, exact |-> FALSE, lenient |-> ""]]
   IN
   CASE md \in {"d", "dead"} -> st
     [] md = "lc" -> [st EXCEPT !.m = "d"]
     [] md = "id" -> EmitC(st, "id")
-    [] md \in {"z", "int", "frac", "exp", "hex", "bin", "oct"} -> EmitC(st, "num")
-    [] md = "intdot" -> LET s1 == Fire(EmitC(st, "num"), "Dev_TrailingDot")
-                            s2 == [s1 EXCEPT !.ts = st.pos - 1, !.tl = st.line, !.tc = st.col - 1]
-                        IN EmitC(s2, ".")
+    [] md \in {"z", "int", "idot", "frac", "exp", "hex", "bin", "oct"} -> EmitC(st, "num")
+    [] md \in {"idote", "idotes"} -> [st EXCEPT !.m = "dead", !.err = [k |-> "bad-number", s0 |-> st.ts, s1 |-> st.pos, exact |-> FALSE, lenient |-> "Dev_NumberDotName"]]
     [] md = "dot" -> EmitC(st, ".")
     [] md = "p" -> EmitC(st, st.acc)
     [] md = "sl" -> IF st.userx /\ st.rx
